@@ -29,8 +29,17 @@ type Req struct {
 	Target   string   `json:"target,omitempty"` // explicit target directory (the parent owns the jail)
 	Route    string   `json:"route,omitempty"`  // "" / "md": From-Markdown; "root": From-Root (tree built from Items)
 	Items    []Item   `json:"items,omitempty"`
-	Alias    bool     `json:"alias,omitempty"` // use the deprecated alias of the entry point
-	Leaks    bool     `json:"leaks,omitempty"` // after the call, wait for gtree goroutines to settle and report those left
+	Alias    bool     `json:"alias,omitempty"`    // use the deprecated alias of the entry point
+	Leaks    bool     `json:"leaks,omitempty"`    // after the call, wait for gtree goroutines to settle and report those left
+	ReadFail *int     `json:"readfail,omitempty"` // the reader delivers this many bytes and then fails with a sentinel error
+	WFault   *WFault  `json:"wfault,omitempty"`   // the writer refuses one Write call
+}
+
+// WFault: Write call number At (1-based) is refused: "fail" accepts nothing, "short" accepts half; both
+// return an error, every later call is refused as well.
+type WFault struct {
+	How string `json:"how"`
+	At  int    `json:"at"`
 }
 
 // Item is one line of a well-formed document: depth (roots 1) and name.
@@ -40,14 +49,18 @@ type Item struct {
 }
 
 type Rep struct {
-	ID       int      `json:"id"`
-	Class    string   `json:"class"` // ok | err | panic | hang
-	Out      string   `json:"out"`
-	Err      string   `json:"err"`
-	Walk     []string `json:"walk,omitempty"` // rows seen by the callback
-	Entries  []string `json:"entries,omitempty"`
-	Leaked   int      `json:"leaked,omitempty"`   // goroutines with gtree frames alive after the call settled
-	LeakSigs []string `json:"leaksigs,omitempty"` // top gtree frame + wait reason of each
+	ID          int      `json:"id"`
+	Class       string   `json:"class"` // ok | err | panic | hang
+	Out         string   `json:"out"`
+	Err         string   `json:"err"`
+	Walk        []string `json:"walk,omitempty"` // rows seen by the callback
+	Entries     []string `json:"entries,omitempty"`
+	Leaked      int      `json:"leaked,omitempty"`      // goroutines with gtree frames alive after the call settled
+	LeakSigs    []string `json:"leaksigs,omitempty"`    // top gtree frame + wait reason of each
+	IsReaderErr bool     `json:"isreadererr,omitempty"` // errors.Is(err, the injected reader error)
+	WCalls      int      `json:"wcalls,omitempty"`      // Write calls seen by the writer
+	WRefused    bool     `json:"wrefused,omitempty"`    // some Write call was refused or cut
+	WSizes      []int    `json:"wsizes,omitempty"`      // requested size of each Write call
 }
 
 // Serve runs the worker loop on stdin/stdout.
